@@ -289,9 +289,14 @@ func c17qJudge(raw *conformancev1.RawHTTPRequest, obs c17qObs) (out []c17qVerdic
 	}
 	// headers
 	listed, _ := c17lib.Group(raw.GetHeaders())
+	entries := c17lib.Entries(raw.GetHeaders())
 	for name, vals := range listed {
 		if gotv := seen.Header.Values(name); !c17lib.EqualStrings(gotv, vals) {
-			add("raw-request:header-missing-or-wrong", "header %s: server saw %q, specified %q", name, gotv, vals)
+			if entries[name] > 1 {
+				add("raw-request:header-named-in-several-entries", "header %s is named in %d entries of the list: server saw %q, specified %q (all values, in list order)", name, entries[name], gotv, vals)
+			} else {
+				add("raw-request:header-missing-or-wrong", "header %s: server saw %q, specified %q", name, gotv, vals)
+			}
 		}
 	}
 	if v := seen.Header.Values("X-Orig"); len(v) > 0 {
@@ -499,7 +504,7 @@ func c17qEnumerate(thorough bool, visit func(grid, proto string, raw *conformanc
 func TestVerifC17RawRequest(t *testing.T) {
 	r := rep.New("c17-rawreq")
 	defer r.Write()
-	r.Rule = "case = (protocol h1|h2tls|h2c) x RawHTTPRequest; grid U = verb{POST,GET,PUT} x 4 URIs (plain, root, escaped, with own query) x 4 raw query lists x encoded query lists (text/binary/binary_message, compressed, +-base64, repeated name, unset value; thorough: 7 payloads x 7 compressions x +-base64); grid H = verb x header lists (0-2 headers, 1-2 values, repeated name, Content-Type, correct Content-Length) x medium body set; grid B (thorough) = full body alphabet x 2 verbs x 2 header lists; distinct (proto, definition) = non-trivial; oracle = what a recording net/http server received vs. the definition (independent body decoder), nothing of the original request"
+	r.Rule = "case = (protocol h1|h2tls|h2c) x RawHTTPRequest; grid U = verb{POST,GET,PUT} x 4 URIs (plain, root, escaped, with own query) x 4 raw query lists x encoded query lists (text/binary/binary_message, compressed, +-base64, repeated name, unset value; thorough: 7 payloads x 7 compressions x +-base64); grid H = verb x header lists (0-3 headers, 1-2 values, a name in two entries - same spelling or differing in case - whose values must all arrive in list order, Content-Type, correct Content-Length) x medium body set; grid B (thorough) = full body alphabet x 2 verbs x 2 header lists; distinct (proto, definition) = non-trivial; oracle = what a recording net/http server received vs. the definition (independent body decoder), nothing of the original request"
 
 	servers := c17qStart()
 	defer func() {
